@@ -281,12 +281,22 @@ class CtxRecorder:
     def attributes(self, idx):
         lat = self.ctx.lattice
         c = self.members[idx]
+        if idx % 3 == 0:
+            # two live iterators over the same concept BEFORE anything else consumed attributes() on it:
+            # start one, run a second one past it, resume the first
+            it1 = c.attributes()
+            first = list(itertools.islice(it1, 1))
+            second = list(itertools.islice(c.attributes(), 5000))
+            first += list(itertools.islice(it1, 5000))
+            for seq in (first, second):
+                regen = [lat(g) for g in seq]
+                self.ev('attributes', c=self.ext(c), res=[self.P(g) for g in seq],
+                        regen=[self.ext(r) for r in regen], same=all(r is c for r in regen), interleaved=True)
         gens = list(itertools.islice(c.attributes(), 5000))
         regen = [lat(g) for g in gens]
         self.ev('attributes', c=self.ext(c), res=[self.P(g) for g in gens],
                 regen=[self.ext(r) for r in regen], same=all(r is c for r in regen))
         self.ev('minimal', c=self.ext(c), res=self.P(c.minimal()))
-
     # ------------------------------------------------------------------ C20
     _edge = re.compile(r'^\t(\S+) -> (\S+)(?: \[(.*)\])?$')
     _node = re.compile(r'^\t(\S+)(?: \[(.*)\])?$')
@@ -311,8 +321,18 @@ class CtxRecorder:
                 return text
             return cb
 
+        cbo, cbp = mk('O', self.opos), mk('P', self.ppos)
         if mode == 'callbacks':
-            dot = lat.graphviz(make_object_label=mk('O', self.opos), make_property_label=mk('P', self.ppos))
+            dot = lat.graphviz(make_object_label=cbo, make_property_label=cbp)
+        elif mode == 'again-after-edit':
+            # the returned Digraph is the caller's to change; a later call must draw the lattice afresh
+            first = lat.graphviz(make_object_label=cbo, make_property_label=cbp)
+            first.node('c0', color='red')
+            first.edge('c0', 'c0', headlabel='mine')
+            first.body.append('\tzz\n')
+            d2 = lat.graphviz()
+            d2.body.clear()
+            dot = lat.graphviz(make_object_label=cbo, make_property_label=cbp)
         else:
             dot = lat.graphviz()
         nodes, edges, hl, tl, extra = [], [], [], [], 0
@@ -332,7 +352,7 @@ class CtxRecorder:
                 if t == h and ('headlabel' in a) != ('taillabel' in a):
                     which, pos = ('headlabel', self.opos) if 'headlabel' in a else ('taillabel', self.ppos)
                     text = a[which]
-                    if mode == 'callbacks':
+                    if mode != 'default':
                         rec = [num(t), calls.get(text, [-1]), text, text if text in calls else '?']
                     else:
                         names = text.split(' ')
@@ -432,6 +452,40 @@ class CtxRecorder:
               'rows': [[k + 1 for k, v in enumerate(row) if v] for row in ctx2.bools]}
         self.ev('rel', kind=kind, t2=t2, c1=c1, c2=c2, cov1=cov1, cov2=cov2, jm1=jm1, jm2=jm2, rel1=rel1, rel2=rel2,
                 g2a=g2a, g2b=g2b, **params)
+
+
+def crc_twin(C, objs, props, table):
+    """A DIFFERENT table over the same labels whose Context.crc32() equals the given table's (public API only).
+
+    CRC32 is affine over GF(2) for messages of equal length, and the table text has a fixed layout, so toggling a
+    suitable set of cells never changes the checksum; with more than 32 cells such a set exists.  Returns None
+    for smaller tables.  Contexts like these are what a cache keyed by the checksum shown in repr() conflates."""
+    n, m = table.n, table.m
+    cells = [(i, j) for i in range(n) for j in range(m)]
+    if len(cells) < 34:
+        return None
+
+    def crc(on):
+        bools = [tuple((i, j) in on for j in range(m)) for i in range(n)]
+        return int(C.Context(objs, props, bools).crc32(), 16)
+    base = crc(set())
+    basis = {}          # leading bit -> (vector, set of cells)
+    for c in cells[:40]:
+        v, used = crc({c}) ^ base, {c}
+        while v:
+            hb = v.bit_length() - 1
+            if hb not in basis:
+                basis[hb] = (v, used)
+                break
+            bv, bu = basis[hb]
+            v ^= bv
+            used = used ^ bu
+        else:
+            if used:
+                rows = [sorted(set(r) ^ {j + 1 for (i2, j) in used if i2 == i}) for i, r in enumerate(table.rows)]
+                import corpus
+                return corpus.Table(n, m, rows, table.tag + ':crc-twin')
+    return None
 
 
 # -------------------------------------------------------------------- plans
@@ -621,4 +675,6 @@ def drive(rec, table, b, families, rng, exhaustive_queries, nsub=10, nmulti=12, 
                 T(rec.attributes, i)
     if 'C20' in families:
         T(rec.graphviz, 'callbacks')
+        T(rec.graphviz, 'default')
+        T(rec.graphviz, 'again-after-edit')
         T(rec.graphviz, 'default')
